@@ -86,4 +86,76 @@ Within(y, fr, s, tn, td) ==
   LET lhs == Abs(Sub(Mul(y, fr.d), fr.n))
       sc == Max2(Abs(fr.n), Mul(s, Abs(fr.d)))
   IN Le(Mul(td, lhs), Mul(tn, sc))
+----------------------------------------------------------------------------
+(* Many-variable functions (C02).  Sources: Fa, Fb: Eq.(6.3) and Iabc:     *)
+(* Eq.(6.5) of arXiv:1311.1775 (with G3, G4 above); Phi: Eq.(68) of        *)
+(* arXiv:1607.06292 = lambda^2 Phi_DT / (2 z) with the Davydychev-Tausk    *)
+(* function of the two smaller arguments over the largest (atom PHI);      *)
+(* FPZ, FSZ, FCWl: (y f(x) - x f(y))/(x - y) for f = f_PS, f_S, f_CSl      *)
+(* (atoms Fx, Fy; LIM = x f'(x) - f(x) at x = y); f_CSd, f_CSu: Eqs.(61),  *)
+(* (62) of arXiv:1607.06292 (atoms Lu, Ld = logs, D = Li2(1 - xd/xu),      *)
+(* PY = Phi(xd, xu, 1)/lambda^2(xd, xu, 1)); FCWu, FCWd: their difference  *)
+(* quotients.  Degenerate configurations (equal arguments, an argument     *)
+(* equal to 1, zero arguments) are separate cases with the analytic limit. *)
+
+Lambda2(x, y, z) == Sub(Add(Sq(x), Add(Sq(y), Sq(z))), K(2, Add(Mul(x, y), Add(Mul(y, z), Mul(x, z)))))
+Max3(x, y, z) == Max2(x, Max2(y, z))
+
+G3Frac(x, L) == IF Eq(x, One) THEN Frac(One, OfInt(3))
+                ELSE Frac(Add(Mul(Sub(x, One), Poly(x, <<-3, 1>>)), K(2, L)), K(2, Pow(Sub(x, One), 3)))
+G4Frac(x, L) == IF Eq(x, One) THEN Frac(One, OfInt(6))
+                ELSE Frac(Sub(Mul(Sub(x, One), Poly(x, <<1, 1>>)), K(2, Mul(x, L))), K(2, Pow(Sub(x, One), 3)))
+\* (g(y) - g(x)) / (x - y) for fractions gx, gy
+DiffQuot(gx, gy, x, y) == Frac(Sub(Mul(gy.n, gx.d), Mul(gx.n, gy.d)), Mul(Mul(gx.d, gy.d), Sub(x, y)))
+
+FaDef(x, y, at) ==
+  IF x.s = 0 /\ y.s = 0 THEN Frac(Zero, One)       \* documented: 0 when the larger argument vanishes
+  ELSE IF Eq(x, y) THEN (IF Eq(x, One) THEN Frac(One, OfInt(4))
+                    ELSE Frac(Add(Poly(x, <<2, 3, -6, 1>>), K(6, Mul(x, at.Lx))), K(2, Mul(x, Pow(Sub(x, One), 4)))))
+  ELSE DiffQuot(G3Frac(x, at.Lx), G3Frac(y, at.Ly), x, y)
+FbDef(x, y, at) ==
+  IF x.s = 0 /\ y.s = 0 THEN Frac(Zero, One)
+  ELSE IF Eq(x, y) THEN (IF Eq(x, One) THEN Frac(One, OfInt(12))
+                    ELSE Frac(Sub(Poly(x, <<-5, 4, 1>>), Mul(Poly(x, <<2, 4>>), at.Lx)), K(2, Pow(Sub(x, One), 4))))
+  ELSE DiffQuot(G4Frac(x, at.Lx), G4Frac(y, at.Ly), x, y)
+
+\* I(x, y, z) on squared arguments, Lx = log x etc.
+IPair(x, z, Lx, Lz) == Frac(Add(Sub(x, z), Mul(z, Sub(Lz, Lx))), Sq(Sub(x, z)))         \* I(x, x, z)
+IZero(y, z, Ly, Lz) == IF Eq(y, z) THEN Frac(One, y) ELSE Frac(Sub(Ly, Lz), Sub(y, z))   \* I(0, y, z)
+IabcDef(a, b, c, at) ==
+  LET x == Sq(a)  y == Sq(b)  z == Sq(c)
+      nz == (IF x.s = 0 THEN 1 ELSE 0) + (IF y.s = 0 THEN 1 ELSE 0) + (IF z.s = 0 THEN 1 ELSE 0)
+      Lx == IF x.s = 0 THEN Zero ELSE K(2, at.La)
+      Ly == IF y.s = 0 THEN Zero ELSE K(2, at.Lb)
+      Lz == IF z.s = 0 THEN Zero ELSE K(2, at.Lc)
+  IN IF nz >= 2 THEN Frac(Zero, One)
+     ELSE IF x.s = 0 THEN IZero(y, z, Ly, Lz) ELSE IF y.s = 0 THEN IZero(x, z, Lx, Lz) ELSE IF z.s = 0 THEN IZero(x, y, Lx, Ly)
+     ELSE IF Eq(x, y) /\ Eq(y, z) THEN Frac(One, K(2, x))
+     ELSE IF Eq(x, y) THEN IPair(x, z, Lx, Lz) ELSE IF Eq(y, z) THEN IPair(y, x, Ly, Lx) ELSE IF Eq(x, z) THEN IPair(x, y, Lx, Ly)
+     ELSE Frac(Sum3(Mul(Mul(x, y), Sub(Lx, Ly)), Mul(Mul(y, z), Sub(Ly, Lz)), Mul(Mul(z, x), Sub(Lz, Lx))),
+               Mul(Mul(Sub(x, y), Sub(y, z)), Sub(x, z)))
+
+PhiDef(x, y, z, at) == Frac(Mul(at.PHI, Lambda2(x, y, z)), K(2, Max3(x, y, z)))
+PhiOverLambdaDef(x, y, z, at) == Frac(at.PHI, K(2, Max3(x, y, z)))
+
+QuotDef(x, y, at) == IF x.s = 0 \/ y.s = 0 THEN Frac(Zero, One)
+                     ELSE IF Eq(x, y) THEN Frac(at.LIM, One)
+                     ELSE Frac(Sub(Mul(y, at.Fx), Mul(x, at.Fy)), Sub(x, y))
+
+\* 4 * (f_CSd / xd)  and  12 * (f_CSu / xu); sfx selects the atom set ("1": (xu, xd), "2": (yu, yd))
+Core4(xu, xd, qu, qd, Lu, Ld, D, PY, two) ==
+  LET dlt == Sub(xu, xd)
+      q2 == IF two THEN Two ELSE Zero
+      c == Add(Sq(dlt), Sub(Mul(Add(qd, q2), xd), Mul(Add(qu, q2), xu)))
+      cbar == Sub(Mul(Sub(xu, Add(qu, q2)), xu), Mul(Add(xd, Add(qd, q2)), xd))
+      s4 == Add(Add(qu, qd), IF two THEN OfInt(4) ELSE Zero)
+  IN SumSeq(<< K(-4, dlt), K(4, Mul(Sub(cbar, Mul(c, dlt)), PY)), K(4, Mul(c, D)), K(-2, Mul(c, Mul(Lu, Sub(Ld, Lu)))),
+               Mul(Add(s4, K(4, xd)), Ld), Mul(Sub(s4, K(4, xu)), Lu) >>)
+FCSdDef(xu, xd, qu, qd, Lu, Ld, D, PY) ==
+  IF xd.s = 0 THEN Frac(Zero, One) ELSE Frac(Mul(xd, Core4(xu, xd, qu, qd, Lu, Ld, D, PY, FALSE)), OfInt(4))
+FCSuDef(xu, xd, qu, qd, Lu, Ld, D, PY) ==
+  Frac(Mul(xu, Sum3(K(3, Core4(xu, xd, qu, qd, Lu, Ld, D, PY, TRUE)), K(-16, Mul(Sub(Sub(xu, xd), One), PY)),
+                     K(-4, Mul(Add(Ld, Lu), Sub(Ld, Lu))))), OfInt(12))
+\* (w2 f1 - w1 f2) / (w1 - w2) for fractions f1, f2
+FCWDef(f1, f2, w1, w2) == Frac(Sub(Mul(Mul(w2, f1.n), f2.d), Mul(Mul(w1, f2.n), f1.d)), Mul(Mul(f1.d, f2.d), Sub(w1, w2)))
 =============================================================================
